@@ -353,6 +353,18 @@ func propC12(a *Analysis, r *Registry) {
 					r.Fail("B-C12 derivative", construct, b.pos(pdfFn), "PDF has a term outside the kernel images: "+clip(prest.String(), 200))
 					return
 				}
+				// the derivative does not see CDF's constant of integration: it is fixed by the value
+				// at an end of the support — the images cancel in pairs at x = BoundaryMin (giving 0)
+				// and at x = BoundaryMax (giving the constant, which must be 1)
+				wantC := int64(0)
+				if br.name == "upper-bound-only" {
+					wantC = 1
+				}
+				if cc, _ := crest.IsConst(); cc.Cmp(big.NewRat(wantC, 1)) != 0 {
+					r.Fail("B-C12 derivative", construct+"/constant", b.pos(cdfFn), fmt.Sprintf("CDF's constant term is %s, not %d: the distribution function does not run from 0 to 1 over the support", cc.RatString(), wantC))
+				} else {
+					r.OK("B-C12 derivative", construct+"/constant", b.pos(cdfFn), fmt.Sprintf("CDF's constant term is %d", wantC))
+				}
 				var want []image
 				for _, im := range cim {
 					d, ok := im.arg.Deriv(xid)
